@@ -6,6 +6,8 @@ import Bec2Verif.Lemmas.Frame
 import Bec2Verif.Lemmas.Ctr
 import Bec2Verif.Lemmas.Cfb
 import Bec2Verif.Lemmas.Adapter
+import Bec2Verif.Lemmas.Feeder
+import Bec2Verif.Lemmas.AdapterFeeder
 /-!
 # C16 — bundled AES tables = GF(2^8) definitions; adapter = pure zero-padded CBC; stream modes split-independent
 
@@ -13,7 +15,11 @@ import Bec2Verif.Lemmas.Adapter
 * adapter clause: for every invertible block cipher, `encrypt` is CBC of the zero-padded data under the
   given or all-zero IV, `mac` its last block, `decrypt ∘ encrypt` returns exactly the padded data;
   the adapter model is a pure function of `(key, iv, data)` (no state to depend on);
-* mode clause (proved part): OFB output and state do not depend on how the input is split across calls.
+* mode clause: CTR = SP 800-38A key stream; OFB, CTR and CFB output and state do not depend on how the input is split across calls;
+* feeder clause: PKCS#7 strips what it appended; `feed(a ++ b)` = `feed(a)`, `feed(b)` for every mode (so any chunking of the input
+  gives the result of one call); `Encrypter` over ECB / CBC = the mode block by block on the PKCS#7-padded message and the
+  `Decrypter` returns the message; over OFB / CTR / CFB the feeder returns what one call of the mode object returns; the adapter
+  model is the CBC mode object and the `padding="none"` feeder used the adapter's way.
 * cipher clause: the model of `pyaes.AES` (table-driven rounds on packed words, the key-schedule loop) **is** FIPS-197:
   `encrypt` = Cipher ∘ KeyExpansion, `decrypt` = InvCipher ∘ KeyExpansion for every key of 16/24/32 bytes and every
   block (`Spec/Fips197.lean` is the standard written out: SubBytes as field inverse + affine map, ShiftRows, MixColumns
@@ -162,6 +168,101 @@ theorem cfb_split_independent (B : BlockCipher) (seg : Nat) (hseg : 0 < seg) (s 
     Modes.step B s dec (a ++ b) =
       (Modes.step B s dec a >>= fun (s1, o1) => Modes.step B s1 dec b >>= fun (s2, o2) => .ok (s2, o1 ++ o2)) :=
   Modes.cfb_split B seg hseg s hk hreg dec a b n m ha hb
+
+/-! ### block feeders (`pyaes/blockfeeder.py`: `Encrypter` / `Decrypter`, `append_PKCS7_padding` / `strip_PKCS7_padding`) -/
+
+/-- PKCS#7: stripping what was appended returns the data, for every length -/
+theorem pkcs7_roundtrip (d : Bytes) : Modes.stripPkcs7 (Modes.pkcs7 d) = .ok d := Modes.stripPkcs7_pkcs7 d
+
+/-- **feeders are split-independent, every mode**: `feed(a ++ b)` and `feed(a)` followed by `feed(b)` return the same bytes
+and leave the same feeder (buffer and mode object) behind, and one fails iff the other does -/
+theorem feeder_feed_append (B : BlockCipher) (hlen : ∀ key b, (B.enc key b).length = 16) (f : Modes.Feeder B) (buf a b : Bytes)
+    (hb : f.buffer = some buf) (hseg : ∀ seg, f.mode.kind = .cfb seg → 0 < seg) :
+    Modes.feed B f (some (a ++ b)) =
+      match Modes.feed B f (some a) with
+      | .error e => .error e
+      | .ok (f1, o1) =>
+        match Modes.feed B f1 (some b) with
+        | .error e => .error e
+        | .ok (f2, o2) => .ok (f2, o1 ++ o2) :=
+  Modes.feed_append B hlen f buf a b hb hseg
+
+/-- … hence for any way of cutting the input into chunks, the chunks fed one by one and then the finalising `feed()`
+return what a single `feed` with everything and `feed()` return -/
+theorem feeder_split_independent (B : BlockCipher) (hlen : ∀ key b, (B.enc key b).length = 16) (f : Modes.Feeder B)
+    (buf c : Bytes) (cs : List Bytes) (hb : f.buffer = some buf) (hseg : ∀ seg, f.mode.kind = .cfb seg → 0 < seg) :
+    Modes.feedAllMany B f (c :: cs) = Modes.feedAll B f (c ++ cs.flatten) :=
+  Modes.feedAllMany_eq B hlen f buf c cs hb hseg
+
+/-- `Encrypter` over ECB / CBC with the default padding = the mode object applied block by block to the PKCS#7-padded message -/
+theorem feeder_encrypter_ecb_cbc (B : BlockCipher) (f : Modes.Feeder B) (hk : f.mode.kind = .ecb ∨ f.mode.kind = .cbc)
+    (hdec : f.dec = false) (hpad : f.padding = .default) (hb : f.buffer = some []) (data : Bytes) :
+    Modes.feedAll B f data =
+      match Modes.stepBlocks B false ((Modes.pkcs7 data).length / 16) f.mode (Modes.pkcs7 data) with
+      | .error e => .error e
+      | .ok (_, o) => .ok o :=
+  Modes.feedAll_enc_block B f hk hdec hpad hb data
+
+/-- `Decrypter ∘ Encrypter = id` for ECB / CBC with PKCS#7 over an invertible block cipher (same key and IV), and the
+ciphertext is as long as the padded message -/
+theorem feeder_roundtrip_ecb_cbc (B : BlockCipher) (hB : BlockInv B) (key : Bytes) (me md : Modes.St B) (data : Bytes)
+    (hkey : B.sched key = .ok me.key) (hkind : me.kind = .ecb ∨ me.kind = .cbc) (hsame : Modes.InStep B me md)
+    (hreg : me.reg.length = 16) :
+    ∃ C, Modes.feedAll B { mode := me, dec := false, padding := .default, buffer := some [] } data = .ok C ∧
+      C.length = (Modes.pkcs7 data).length ∧
+      Modes.feedAll B { mode := md, dec := true, padding := .default, buffer := some [] } C = .ok data :=
+  Modes.feeder_roundtrip_block B hB key me md data hkey hkind hsame hreg
+
+/-- feeders over OFB / CTR return what one call of the mode object on the whole message returns -/
+theorem feeder_ofb_ctr (B : BlockCipher) (hlen : ∀ key b, (B.enc key b).length = 16) (f : Modes.Feeder B)
+    (hk : f.mode.kind = .ofb ∨ f.mode.kind = .ctr) (hb : f.buffer = some []) (data : Bytes) :
+    Modes.feedAll B f data =
+      match Modes.step B f.mode f.dec data with
+      | .error e => .error e
+      | .ok (_, o) => .ok o :=
+  Modes.feedAll_stream B hlen f hk hb data
+
+/-- feeders over CFB (segments of 1…16 bytes): zero-padded to the next segment boundary, through the mode object, cut back -/
+theorem feeder_cfb (B : BlockCipher) (hlen : ∀ key b, (B.enc key b).length = 16) (f : Modes.Feeder B) (seg : Nat)
+    (hk : f.mode.kind = .cfb seg) (hseg : 0 < seg) (h16 : seg ≤ 16) (hreg : f.mode.listReg = false)
+    (hpad : f.padding = .default) (hb : f.buffer = some []) (data : Bytes) :
+    Modes.feedAll B f data =
+      match Modes.step B f.mode f.dec (data ++ zeros (seg - data.length % seg)) with
+      | .error e => .error e
+      | .ok (_, o) => .ok (o.take data.length) :=
+  Modes.feedAll_cfb B hlen f seg hk hseg h16 hreg hpad hb data
+
+/-- **the adapter model is the general mode-object and feeder models used the adapter's way**: a fresh CBC object, a feeder
+with `padding="none"`, one `feed(data)` and `feed()` -/
+theorem adapter_is_cbc_feeder (B : BlockCipher) (key : Bytes) (iv : Option Bytes) (data : Bytes) :
+    (Adapter.encrypt B key iv data =
+      if data.length = 0 then .error .valueError else
+      match Modes.new B .cbc key iv 0 with
+      | .error e => .error e
+      | .ok m => Modes.feedAll B { mode := m, dec := false, padding := .none, buffer := some [] } (zeroPad data)) ∧
+    (Adapter.decrypt B key iv data =
+      if data.length = 0 ∨ data.length % 16 ≠ 0 then .error .valueError else
+      match Modes.new B .cbc key iv 0 with
+      | .error e => .error e
+      | .ok m => Modes.feedAll B { mode := m, dec := true, padding := .none, buffer := some [] } data) :=
+  ⟨Modes.adapter_encrypt_is_feeder B key iv data, Modes.adapter_decrypt_is_feeder B key iv data⟩
+
+/-- the hypotheses of the feeder theorems are met by a fresh feeder over a mode object that `new` built -/
+example (B : BlockCipher) (key : Bytes) (iv : Option Bytes) (m : Modes.St B) (seg : Nat) (h : Modes.new B (.cfb seg) key iv 0 = .ok m) :
+    ∀ s, m.kind = .cfb s → 0 < s := by
+  unfold Modes.new at h
+  simp only [bind, Except.bind, pure, Except.pure] at h
+  split at h
+  · cases h
+  · split at h
+    · cases h
+    · injection h with h
+      subst h
+      intro s hs
+      simp only at hs
+      injection hs with hs
+      rw [← hs]
+      split <;> omega
 
 /-- the regenerated constants of `crypto.AES128` -/
 theorem consts_pinned : Gen.AES_BLOCK_SIZE = 16 ∧ Gen.AES_KEY_SIZE = 16 := by decide
